@@ -95,6 +95,7 @@ def inline_crate(j):
     if kn is None:
         return {'inlined': 0, 'dropped': []}
     renamed = _alias_renamed(j, kn)
+    renamed += _alias_fields(j)
     by_name = {f['name']: f for f in j['fns']}
     _CTX['by_name'], _CTX['j'] = by_name, j
     stats = {'inlined': 0, 'dropped': [], 'sites': [], 'renamed': renamed}
@@ -108,6 +109,14 @@ def inline_crate(j):
             g = by_name.get(cand)
             if g is not None and cand not in kn:
                 return g, 'fn'
+        if _is_closure_call(c) and not c.get('path') and t['args']:
+            # a call through a generic `impl Fn` parameter of a helper that has been inlined here: the callee is
+            # the closure the caller passed, when that is a closure built in this very function
+            cname = _trace_closure(caller, t['args'][0])
+            g = by_name.get(cname) if cname else None
+            top = caller['name'].split('::{closure')[0]
+            if g is not None and cname.startswith(top + '::{closure') and cname != caller['name']:
+                return g, 'closure'
         if not c.get('local'):
             return None, None
         path = c.get('path') or ''
@@ -209,6 +218,13 @@ def inline_crate(j):
             if n_aggs <= 1 or n_live == 0:
                 stats['dropped'].append(cname)
                 changed = True
+    # closures whose every call was inlined (called directly, or through an `impl Fn` parameter of an inlined helper)
+    # and whose value reaches no remaining call: their body lives in the caller now
+    for cname in sorted({x.split(' <- ', 1)[1] for x in stats['sites'] if '::{closure' in x.split(' <- ', 1)[1]}):
+        if cname in stats['dropped'] or cname not in by_name:
+            continue
+        if not _closure_escapes(j, cname, set(stats['dropped'])):
+            stats['dropped'].append(cname)
     # closures of a dropped helper that no retained function builds any more (their for_each became a loop in the
     # helper's body before that body was copied into the callers): judged in context there, not on their own
     changed = True
@@ -266,16 +282,58 @@ def _alias_renamed(j, kn):
     ref_sigs = known().get(('bin' if j.get('is_bin') else 'lib') + '_sigs', {})
     pairs = []
     taken = set()
+    ref_calls = known().get(('bin' if j.get('is_bin') else 'lib') + '_calls', {})
+
+    def par(n):
+        return n.rsplit('::', 1)[0] if '::' in n else ''
+
+    def related(a, b):
+        # same impl / module, or an associated fn that became a free fn of the impl's module (and back), or the same
+        # method of a crate-local trait that was renamed (`<S as T>::f` / `<S as T2>::f2` for the same S)
+        pa, pb = par(a), par(b)
+        if pa == pb or par(pa) == pb or pa == par(pb):
+            return True
+        for x, y in ((pa, pb), (pb, pa)):
+            # a method of a single-impl crate-local trait folded into the type's inherent impl (and back)
+            if x.startswith('<') and ' as ' in x and x[1:].rsplit(' as ', 1)[0] == y and not x[1:].rsplit(' as ', 1)[1].startswith(('std::', 'core::')):
+                return True
+        if pa.startswith('<') and pb.startswith('<') and ' as ' in pa and ' as ' in pb:
+            sa, ta = pa[1:].rsplit(' as ', 1)
+            sb, tb = pb[1:].rsplit(' as ', 1)
+            return sa == sb and par(ta) == par(tb) and not ta.startswith(('std::', 'core::'))
+        return False
+
+    def callees(fn_):
+        out = set()
+        for g in j['fns']:
+            if g['name'] == fn_['name'] or g['name'].startswith(fn_['name'] + '::{closure'):
+                for b in g['blocks']:
+                    t = b['term']
+                    if t['t'] == 'call':
+                        out.add((t['callee'].get('path') or t['callee'].get('def') or '').split('::')[-1])
+                    for st in b['stmts']:
+                        if st['s'] == 'assign' and st['rv']['r'] == 'bin' and st['rv']['op'] in ('Add', 'Sub', 'Mul', 'Div'):
+                            out.add('op:' + st['rv']['op'])
+        return out
+
+    def best(m, cands):
+        # several candidates of equal signature: the one whose body calls the same things, if clearly ahead
+        want = set(ref_calls.get(m) or [])
+        if not want or len(cands) < 2:
+            return cands[0] if len(cands) == 1 else None
+        sc = sorted(((len(want & callees(names[u])) / float(len(want | callees(names[u])) or 1), u) for u in cands), reverse=True)
+        return sc[0][1] if sc[0][0] >= 0.5 and sc[0][0] > sc[1][0] + 0.2 else None
     for m in sorted(missing):
-        parent = m.rsplit('::', 1)[0] if '::' in m else ''
         sig = ref_sigs.get(m) if isinstance(ref_sigs, dict) else None
-        cands = [u for u in unknown if (u.rsplit('::', 1)[0] if '::' in u else '') == parent and u not in taken and
-                 (sig is None or names[u].get('sig') == sig)]
         if sig is None:
             continue
-        if len(cands) == 1:
-            pairs.append((cands[0], m))
-            taken.add(cands[0])
+        cands = [u for u in unknown if par(u) == par(m) and u not in taken and names[u].get('sig') == sig]
+        if not cands:
+            cands = [u for u in unknown if related(u, m) and u not in taken and names[u].get('sig') == sig]
+        pick = best(m, cands)
+        if pick is not None:
+            pairs.append((pick, m))
+            taken.add(pick)
     # second chance: the rename came with a reshaped private parameter type (tuple -> struct, alias ...): same
     # module, same arity, same return type, and the only such pair
     def shape(sig):
@@ -313,11 +371,24 @@ def _alias_renamed(j, kn):
     if not pairs:
         return []
     ren = dict(pairs)
+    tren = {}
+    mren = {}
+    for new_, old_ in pairs:
+        pn, po = new_.rsplit('::', 1)[0], old_.rsplit('::', 1)[0]
+        if pn.startswith('<') and po.startswith('<') and ' as ' in pn and ' as ' in po:
+            t_new, t_old = pn[1:-1].rsplit(' as ', 1)[1], po[1:-1].rsplit(' as ', 1)[1]
+            tren[t_new] = t_old
+            mren[t_new + '::' + new_.rsplit('::', 1)[1]] = t_old + '::' + old_.rsplit('::', 1)[1]
 
     def fix(x):
         if isinstance(x, dict):
             for k, v in list(x.items()):
                 if isinstance(v, str):
+                    if k in ('impl_trait', 'trait') and v in tren:
+                        x[k] = tren[v]
+                    if k in ('path', 'def') and v in mren:
+                        x[k] = mren[v]       # the trait method itself (unresolved calls in generic code)
+                        continue
                     if k in ('name', 'path', 'def'):
                         for new, old in ren.items():
                             if v == new or v.startswith(new + '::{'):
@@ -330,6 +401,60 @@ def _alias_renamed(j, kn):
                 fix(y)
     fix(j['fns'])
     return ['%s -> %s' % (a, b) for a, b in pairs]
+
+
+def _alias_fields(j):
+    """fields of a known private struct that were renamed (and possibly reordered) get their reference names back:
+    matched by unchanged name first, then by type when the type identifies the field uniquely on both sides.
+    Applied to field projections, struct literals and the ADT table; only when the new name is not a field name
+    of any other type (the rename is by name)."""
+    ref = known().get(('bin' if j.get('is_bin') else 'lib') + '_adts') or {}
+    adts = j.get('adts') or {}
+    if not ref or not adts:
+        return []
+    all_names = {}
+    for n, vs in adts.items():
+        for v in vs:
+            for fn_ in v.get('fields', []):
+                all_names.setdefault(fn_, set()).add(n)
+    ren = {}
+    for n, vs in adts.items():
+        rvs = ref.get(n)
+        if not rvs or len(rvs) != len(vs):
+            continue
+        for v, rv in zip(vs, rvs):
+            new = list(zip(v.get('fields', []), v.get('ftys', [])))
+            old = [tuple(x) for x in rv]
+            if len(new) != len(old) or [x[0] for x in new] == [x[0] for x in old] or any(x[0].isdigit() for x in new + old):
+                continue
+            left_new = [x for x in new if x[0] not in {o[0] for o in old}]
+            left_old = [x for x in old if x[0] not in {o[0] for o in new}]
+            for fn_, ty in left_new:
+                same_new = [x for x in left_new if x[1] == ty]
+                same_old = [x for x in left_old if x[1] == ty]
+                if len(same_new) == 1 and len(same_old) == 1 and all_names.get(fn_) == {n}:
+                    ren[fn_] = same_old[0][0]
+    if not ren:
+        return []
+
+    def fix(x):
+        if isinstance(x, dict):
+            if x.get('k') == 'field' and x.get('n') in ren:
+                x['n'] = ren[x['n']]
+            if x.get('k') == 'adt' and isinstance(x.get('fields'), list):
+                x['fields'] = [ren.get(f_, f_) for f_ in x['fields']]
+            for v in x.values():
+                if isinstance(v, (dict, list)):
+                    fix(v)
+        elif isinstance(x, list):
+            for y in x:
+                fix(y)
+    fix(j['fns'])
+    for vs in adts.values():
+        for v in vs:
+            if 'fields' in v:
+                v['fields'] = [ren.get(f_, f_) for f_ in v['fields']]
+    return ['field .%s -> .%s' % kv for kv in sorted(ren.items())]
 
 
 def _used_as_value(j, name):
@@ -514,6 +639,80 @@ def _splice(f, bi, g, how):
     return True
 
 
+def _closure_escapes(j, cname, gone):
+    """is a value of closure `cname` still passed to some call (or stored / returned) in a retained function?"""
+    for f in j['fns']:
+        if f['name'] in gone:
+            continue
+        alias = set()
+        for b in f['blocks']:
+            for st in b['stmts']:
+                rv = st.get('rv') or {}
+                if st['s'] == 'assign' and rv.get('r') == 'agg' and rv.get('kind', {}).get('k') == 'closure' and rv['kind'].get('path') == cname:
+                    if st['pl']['p']:
+                        return True
+                    alias.add(st['pl']['l'])
+        if not alias:
+            continue
+        changed = True
+        while changed:
+            changed = False
+            for b in f['blocks']:
+                for st in b['stmts']:
+                    if st['s'] != 'assign':
+                        continue
+                    rv = st['rv']
+                    src = None
+                    whole = lambda pl_: all(p_['k'] == 'deref' for p_ in pl_['p'])     # the closure itself, not a captured value read out of it
+                    if rv['r'] == 'use' and rv['a'].get('o') in ('copy', 'move') and whole(rv['a']['pl']):
+                        src = rv['a']['pl']['l']
+                    elif rv['r'] in ('ref', 'rawptr') and whole(rv['pl']):
+                        src = rv['pl']['l']
+                    elif rv['r'] == 'agg' and any(o.get('o') in ('copy', 'move') and o['pl']['l'] in alias and whole(o['pl']) for o in rv.get('ops', [])):
+                        return True      # stored into a larger value
+                    if src in alias:
+                        if st['pl']['p'] or st['pl']['l'] == 0:
+                            return True
+                        if st['pl']['l'] not in alias:
+                            alias.add(st['pl']['l'])
+                            changed = True
+        for b in f['blocks']:
+            t = b['term']
+            if t['t'] == 'call':
+                for a in t['args']:
+                    if a.get('o') in ('copy', 'move') and a['pl']['l'] in alias and all(p_['k'] == 'deref' for p_ in a['pl']['p']):
+                        return True
+    return False
+
+
+def _trace_closure(f, op, depth=0):
+    """name of the closure an operand denotes, following single-definition moves and borrows in f"""
+    if depth > 6 or op.get('o') not in ('copy', 'move'):
+        return None
+    pl = op['pl']
+    if any(p['k'] != 'deref' for p in pl['p']):
+        return None
+    l = pl['l']
+    defs = []
+    for b in f['blocks']:
+        for st in b['stmts']:
+            if st['s'] == 'assign' and st['pl']['l'] == l and not st['pl']['p']:
+                defs.append(st['rv'])
+        t = b['term']
+        if t['t'] == 'call' and t['dest']['l'] == l and not t['dest']['p']:
+            defs.append(None)
+    if len(defs) != 1 or defs[0] is None:
+        return None
+    rv = defs[0]
+    if rv['r'] == 'agg' and rv['kind'].get('k') == 'closure':
+        return rv['kind']['path']
+    if rv['r'] == 'use':
+        return _trace_closure(f, rv['a'], depth + 1)
+    if rv['r'] == 'ref':
+        return _trace_closure(f, {'o': 'copy', 'pl': rv['pl']}, depth + 1)
+    return None
+
+
 def _closure_def(f, op):
     """(closure fn name, local holding the closure) when operand op is a closure built in f"""
     if op.get('o') not in ('copy', 'move') or op['pl']['p']:
@@ -652,5 +851,10 @@ def write_known(crates):
             out[kind] = sorted(n for n, f in c.fns.items() if not f.is_closure)
             out[kind + '_sigs'] = {n: f.j.get('sig', '') for n, f in sorted(c.fns.items()) if not f.is_closure}
             out[kind + '_vis'] = {n: ('Public' if str(f.j.get('vis', '')).startswith('Public') else 'Restricted') for n, f in sorted(c.fns.items()) if not f.is_closure}
+            out[kind + '_adts'] = {n: [[(fn_, ty) for fn_, ty in zip(v.get('fields', []), v.get('ftys', []))] for v in vs] for n, vs in sorted(c.adts.items())}
+            # body fingerprint (callee names, own closures included): tells renamed functions of equal signature apart
+            out[kind + '_calls'] = {n: sorted({(t['callee'].get('path') or t['callee'].get('def') or '').split('::')[-1] for g in [f] + c.closures_of(f) for b in g.blocks for t in [b['term']] if t['t'] == 'call'} |
+                                              {'op:' + st['rv']['op'] for g in [f] + c.closures_of(f) for b in g.blocks for st in b['stmts'] if st['s'] == 'assign' and st['rv']['r'] == 'bin' and st['rv']['op'] in ('Add', 'Sub', 'Mul', 'Div')})
+                                    for n, f in sorted(c.fns.items()) if not f.is_closure}
     json.dump(out, open(KNOWN_FILE, 'w'), indent=0)
     return out
